@@ -1166,6 +1166,10 @@ impl LZDiff {
         }
 
         // Remaining bases are literals (a back-extended match may already have taken i past the end)
+        #[cfg(ragc_verif)]
+        if i > text_size {
+            ragc_common::verif::event(ragc_common::verif::ev::X_SITE, [1, 0, 0, 0]);
+        }
         est_cost += text_size.saturating_sub(i);
 
         est_cost
